@@ -11,9 +11,13 @@
      CScan  one TIMED observation of such goroutines (scanners running Range / ToArray / ForEach / Load against
             goroutines that store and delete the same few keys): every operation with a ticket taken before its call
             and one taken after its return (one atomic counter); checked by Model/ScanCheck.scan_check (per-pair
-            provenance and per-key completeness of every observer; no snapshot is demanded of a Range) *)
+            provenance and per-key completeness of every observer; no snapshot is demanded of a Range)
+     CLog   the library's own logger (syslog) used by several goroutines at once: the lines of every round as they
+            arrived in the output, each looked up among the lines of a sequential reference run; every round has to be
+            an interleaving of the goroutines' line sequences (Model/Merge.v: nothing spliced, lost, doubled or out of
+            a goroutine's program order) *)
 From Coq Require Import List Arith Bool Uint63 NArith.
-From IocVerif Require Import Model.SyncMap Model.ScanCheck.
+From IocVerif Require Import Model.SyncMap Model.ScanCheck Model.Merge.
 Import ListNotations.
 
 (* ---------- the whole exported API of the containers, on top of the sequential specification ----------
@@ -62,15 +66,40 @@ Record scan : Type := mkScan {
   sc_partial : list (N * N * smap)        (* Ranges whose callback stopped the iteration: interval, reported pairs *)
 }.
 
+Record logobs : Type := mkLog {
+  lg_outcome : nat;                       (* 0 = ran to the end, 1 = DATA RACE reported, 2 = panic / crash / hang *)
+  lg_ref_ok : bool;                       (* the sequential reference run printed exactly the calls the level filter lets
+                                             through, each line with its level mark, its prefixes and its text (strings:
+                                             compared by the Python side) *)
+  lg_progs : list (list (nat * nat));     (* per goroutine: (logger, line number) of its calls that print, in program order *)
+  lg_rounds : list (list (nat * nat))     (* per round: the output lines in the order they arrived, as (goroutine, line
+                                             number); a line that no call prints is (number of goroutines, 0) *)
+}.
+
 Inductive case : Type :=
 | CSeq (id : nat) (ops : list op) (rets : list ret)
 | CHist (id : nat) (progs : list (list op)) (obs : list sevent) (recs : list oprec)
-| CRace (id : nat) (outcome : nat) (nfail : nat)
+| CRace (id : nat) (outcome : nat) (nfail : nat) (nlogged : nat)
 | CStress (id : nat) (s : stress)
-| CScan (id : nat) (s : scan).
+| CScan (id : nat) (s : scan)
+| CLog (id : nat) (s : logobs).
 
 Definition cid (c : case) : nat :=
-  match c with CSeq i _ _ => i | CHist i _ _ _ => i | CRace i _ _ => i | CStress i _ => i | CScan i _ => i end.
+  match c with CSeq i _ _ => i | CHist i _ _ _ => i | CRace i _ _ _ => i | CStress i _ => i | CScan i _ => i | CLog i _ => i end.
+
+(* every round of the output is an interleaving of the goroutines' line sequences *)
+Definition log_ok (s : logobs) : bool :=
+  Nat.eqb (lg_outcome s) 0 && lg_ref_ok s
+  && forallb (merge_b Nat.eqb (map (map snd) (lg_progs s))) (lg_rounds s).
+
+(* two goroutines print through the same logger *)
+Fixpoint shares_logger (progs : list (list (nat * nat))) : bool :=
+  match progs with
+  | [] => false
+  | p :: rest =>
+      (if existsb (fun e => existsb (fun q => existsb (fun e' => Nat.eqb (fst e) (fst e')) q) rest) p then true
+       else shares_logger rest)
+  end.
 
 Fixpoint seq_rets (m : smap) (ops : list op) : list ret :=
   match ops with [] => [] | o :: r => snd (spec m o) :: seq_rets (fst (spec m o)) r end.
@@ -468,9 +497,10 @@ Definition check_case (c : case) : bool :=
   match c with
   | CSeq _ ops rets => rets_eqb (seq_rets [] ops) rets
   | CHist _ progs obs _ => model_accepts true progs obs          (* a trace of the REPAIRED concrete step model *)
-  | CRace _ outcome _ => Nat.eqb outcome 0                        (* the model (c20_race_free) predicts no race *)
+  | CRace _ outcome _ _ => Nat.eqb outcome 0                      (* the model (c20_race_free) predicts no race *)
   | CStress _ s => stress_check s
   | CScan _ s => scan_ok s
+  | CLog _ s => log_ok s
   end.
 
 (* the property on the implementation's observation *)
@@ -491,14 +521,17 @@ Definition oracle_case (c : case) : bool :=
   match c with
   | CSeq _ ops rets => rets_eqb (seq_rets [] ops) rets
   | CHist _ _ _ recs => linearizable_b recs && no_two_winners_b recs
-  | CRace _ outcome _ => Nat.eqb outcome 0
+  | CRace _ outcome _ _ => Nat.eqb outcome 0
   | CStress _ s => stress_oracle s
   | CScan _ s => scan_ok s
+  | CLog _ s => log_ok s
   end.
 
 (* non-trivial: a script that reads back something it wrote (>= 4 ops); a history in which two operations of
-   different threads overlap in real time; a start with at least two failing scanners; a stress observation in
-   which at least two goroutines mutate the shared container *)
+   different threads overlap in real time; a start with at least two failing scanners, or a start / shutdown in which at
+   least two goroutines report through the library's own logger at a level that prints; a stress observation in
+   which at least two goroutines mutate the shared container; a log observation in which two goroutines print through
+   the same logger *)
 Definition mutates (o : op) : bool :=
   match o with OLoad _ => false | ORange => false | OExists _ => false | _ => true end.
 Definition overlaps (a b : oprec) : bool :=
@@ -507,9 +540,10 @@ Definition nontrivial (c : case) : bool :=
   match c with
   | CSeq _ ops _ => Nat.leb 4 (length ops) && existsb mutates ops && existsb (fun o => negb (mutates o)) ops
   | CHist _ _ _ recs => existsb (fun a => existsb (overlaps a) recs) recs
-  | CRace _ _ nfail => Nat.leb 2 nfail
+  | CRace _ _ nfail nlogged => Nat.leb 2 nfail || Nat.leb 2 nlogged
   | CStress _ s => Nat.leb 2 (length (filter (fun run => existsb (fun xr => xmutates (fst xr)) run) (s_runs s)))
   | CScan _ s => scan_nontrivial s
+  | CLog _ s => shares_logger (lg_progs s)
   end.
 
 Definition mismatches (cs : list case) : list nat := map cid (filter (fun c => negb (check_case c)) cs).
